@@ -15,6 +15,7 @@ LEVEL_TEXT = ("Theorems over the reals, for ALL sizes and ALL kinematic forests 
               "regenerated `_M` / `_tendon_armature` task writes lies in the CSR row of its own dof (all models; so tasks of one launch write disjoint cells). On the real code: d.M vs MuJoCo's M, eigenvalues, "
               "float64 residuals of solve_m / factor_solve_i / factor_solve_lu against the stored matrix, reconstruction of M from every stored factor block, mul_m, qLD vs MuJoCo's qLD, "
               "for every layout m_block_layout produces (compact, scalar, tile, sparse), sizes 1..>64 including 6/7/64/65, nworld > 1.")
+TECHNIQUE = ('Lean 4 theorems over a hand-written model of sparse L^T D L factor/solve (Model/LDL.lean) refined by kernels regenerated from source (_qLD_acc, _qLDiag_div, mul_m, _M); fused/tile kernels compared by replay; oracle: float64 residuals vs mujoco.mj_fullM')
 LEVEL_NOTE = ("C21_partial: the fused solve kernel, the scalar/tile Cholesky factorisation kernels and the sparse LU kernel are nested closures that are not in Gen (listed as missing); the "
               "level-parallel model of the fused solve is hand-written (Model/LDL.lean) and tied to the code by the Python replay of the same elementary updates against the real solve_m in this "
               "module; dense (scalar for general size, tile) and LU paths are covered by the oracle only. Pivots != 0 is a hypothesis (that SPD implies positive pivots is not proved); positive "
